@@ -216,6 +216,32 @@ class Skeleton:
         if top and isinstance(st, ast.Return) and last:
             self.emit(".ret", fl)
             return
+        if (
+            top
+            and not guarded
+            and isinstance(st, ast.Try)
+            and not st.finalbody
+            and not st.orelse
+            and len(st.body) == 1
+            and isinstance(st.body[0], ast.Assign)
+            and isinstance(st.body[0].value, ast.Call)
+            and isinstance(st.body[0].value.func, ast.Attribute)
+            and st.body[0].value.func.attr == "read_text"
+            and all(
+                self.has_fs_call(ast.Module(body=h.body, type_ignores=[])) is None
+                and h.body
+                and isinstance(h.body[-1], ast.Return)
+                and isinstance(h.body[-1].value, ast.Tuple)
+                and isinstance(h.body[-1].value.elts[0], ast.Constant)
+                and h.body[-1].value.elts[0].value is None
+                for h in st.handlers
+            )
+        ):
+            # `try: text = model_path.read_text(...) except UnicodeDecodeError: return None, <report>`:
+            # the read itself is the modelled op; a failed read returns an error without touching the cache
+            # (the model's `compute` of an unreadable text is an error result as well).
+            self.stmt(st.body[0], fl, top, last=False)
+            return
         if top and isinstance(st, (ast.Assign, ast.AnnAssign)) and isinstance(st.value, ast.Constant):
             return
         if top and not guarded:
